@@ -1277,5 +1277,5 @@ def run(ctx):
 MANIFEST_ENTRY = {
     "technique": "static analysis: MIR provenance of the formatter cache keys (everything the constructor captures, uncomputed), lock discipline and poison recovery of the cache, option tables book <-> parser <-> macro <-> run time with abstract evaluation of the argument parsers, MIR check that each of the 18 entry points passes its own parameters to the getter of its family, ICU4X capability table, and the per-locale arms of interpolated keys generated and read back (rules/gentext.py): the builder's locale field reaches the format_* calls untouched, also in an arm shared with fallback locales; rules/reactmacros.py for t_format! (the locale is read when the view renders); the pipeline clause of C02.R7 (every path of every entry point goes through the ICU formatter with the same converted value); abstract evaluation of from_name_and_args (name x feature x flag), CurrencyCode::from_args, parse_formatter, convert_formatter_result and the three generators of format calls (var_to_view / var_to_display / var_fmt); call-graph fact: only the value parser and t_format! resolve formatter names, both through from_name_and_args; provider constructors by MIR return summary; any way of writing the formatter cache (entry / get + insert / matched entry / named constructor closure): every keyed map operation is keyed by the locale or by all option parameters, uncomputed",
     "level_text": "Structural clauses only: (locale, options) keying is complete and uncomputed, lookup+insert is one write-locked critical section that survives poisoning and cannot re-enter, option names/values/defaults agree across book, parser, macro and run time, whitespace is trimmed, all entry points share the getter with their own arguments. The textual result of ICU4X formatting and real thread schedules are not applicable to static analysis and are not claimed.",
-    "level_note": "Known finding D20: time_length full/long panic at run time (ICU4X non-zoned formatters). Fixed upstream: D19 (book arg name), D21 (lock poisoning).",
+    "level_note": "Known finding D20: time_length full/long panic at run time (ICU4X non-zoned formatters). Fixed upstream: D19 (book arg name), D21 (lock poisoning). Known and undecided (hunts/C18): a foreign-key argument replacing `{{ n, number }}` drops the formatter; f32 values print their f64 widening.",
 }
